@@ -177,6 +177,8 @@ EXTRA = {
  "C19": " C19_code_adp_write: ADP_EAMTabulation.write with _write_dipole/_write_quadrupole regenerated from the source (three files) writes the model's adp.",
  "C20": " C20_code_dup_pairs(_ok_iff), C20_code_dup_table_forms, C20_code_build_potential_forms/_build_table_forms/_check_labels_case: the duplicate checks of the parser and the label checks of "
         "the form registry regenerated from the source decide dupPairs / dupLabels.",
+ "C12": " C12_code_eam_builder(_order_free/_strict): EAM_Potential_Builder._init_eampotentials and the eleven methods it uses, regenerated from the source with the iteration order of its one "
+        "set loop handed in as a parameter, build the model's eamBuild for EVERY permutation the hash seed can produce.",
  "C07": " C07_pow_d1_zero_base/_d2_zero_base: the guards of pow.deriv / pow.deriv2 (vanishing base, constant whole exponent), regenerated from the source, return the derivatives.",
 }
 
